@@ -41,18 +41,20 @@ type Violation struct {
 }
 
 type Stats struct {
-	Executions   int64          `json:"executions"`
-	Points       int64          `json:"points"`
-	Rechecked    int64          `json:"rechecked"`
-	MaxTrace     int            `json:"max_trace"`
-	MaxThreads   int            `json:"max_threads"`
-	Outcomes     map[string]int `json:"outcomes"`
-	Violations   []Violation    `json:"violations"`
-	Capped       bool           `json:"capped"`
-	StepLimits   int64          `json:"step_limits"`
-	Infra        string         `json:"infra,omitempty"`
-	Sample       []string       `json:"sample,omitempty"`
-	SamplePrefix []int          `json:"sample_prefix,omitempty"`
+	Executions   int64            `json:"executions"`
+	Points       int64            `json:"points"`
+	Rechecked    int64            `json:"rechecked"`
+	MaxTrace     int              `json:"max_trace"`
+	MaxThreads   int              `json:"max_threads"`
+	Outcomes     map[string]int   `json:"outcomes"`
+	Violations   []Violation      `json:"violations"`
+	Capped       bool             `json:"capped"`
+	StepLimits   int64            `json:"step_limits"`
+	Infra        string           `json:"infra,omitempty"`
+	Fatal        bool             `json:"fatal,omitempty"` // the worker process exits after this result (watchdog)
+	Counters     map[string]int64 `json:"counters,omitempty"`
+	Sample       []string         `json:"sample,omitempty"`
+	SamplePrefix []int            `json:"sample_prefix,omitempty"`
 }
 
 func (s *Stats) merge(o *Stats) {
@@ -73,6 +75,12 @@ func (s *Stats) merge(o *Stats) {
 		if len(s.Outcomes) < 5000 || s.Outcomes[k] > 0 {
 			s.Outcomes[k] += v
 		}
+	}
+	for k, v := range o.Counters {
+		if s.Counters == nil {
+			s.Counters = map[string]int64{}
+		}
+		s.Counters[k] += v
 	}
 	s.Violations = append(s.Violations, o.Violations...)
 	s.Capped = s.Capped || o.Capped
@@ -127,6 +135,14 @@ func (e *explorer) runOne(it item) []item {
 		e.stats.StepLimits++
 	}
 	outcome, viol := ex.Check(r)
+	if c, ok := ex.(interface{ Counts() map[string]int64 }); ok {
+		if e.stats.Counters == nil {
+			e.stats.Counters = map[string]int64{}
+		}
+		for k, v := range c.Counts() {
+			e.stats.Counters[k] += v
+		}
+	}
 	if e.stats.Outcomes == nil {
 		e.stats.Outcomes = map[string]int{}
 	}
@@ -303,10 +319,13 @@ func Explore(scn *Scenario, o ExploreOpts) *Stats {
 				}
 				mu.Lock()
 				e.stats.merge(&st)
-				if e.stats.Infra != "" || len(e.stats.Violations) >= e.maxViol || st.Capped {
+				if e.stats.Infra != "" || len(e.stats.Violations) >= e.maxViol || st.Capped || st.Fatal {
 					stop = true
 				}
 				mu.Unlock()
+				if st.Fatal {
+					break
+				}
 			}
 			in.Close()
 			cmd.Wait()
@@ -369,7 +388,7 @@ func ServeWorker(scenarios func(name string) *Scenario) {
 	rd := bufio.NewReaderSize(os.Stdin, 1<<20)
 	// results go to the original stdout; anything the code under test prints
 	// to os.Stdout afterwards is discarded so it cannot corrupt the protocol
-	out := bufio.NewWriter(os.Stdout)
+	out := bufio.NewWriter(os.NewFile(1, "stdout"))
 	if dn, err := os.OpenFile(os.DevNull, os.O_WRONLY, 0); err == nil {
 		os.Stdout = dn
 	}
@@ -389,6 +408,15 @@ func ServeWorker(scenarios func(name string) *Scenario) {
 			os.Exit(2)
 		}
 		e := &explorer{scn: scn, deadline: dl, recheck: recheck, maxViol: 3}
+		OnStuck = func(reason string, choices []int) {
+			e.stats.Violations = append(e.stats.Violations, Violation{Scenario: scn.Name, Prefix: choices, Msg: reason + "\n(the schedule prefix reaches the point where the code stopped responding)", Outcome: "stuck"})
+			e.stats.Fatal = true
+			e.stats.Executions++
+			b, _ := json.Marshal(&e.stats)
+			out.Write(b)
+			out.WriteByte('\n')
+			out.Flush()
+		}
 		if it.Whole {
 			e.dfs(item{})
 			e.sample()
@@ -456,6 +484,9 @@ func ExploreMany(scns []*Scenario, o ExploreOpts) ([]*Stats, string) {
 					}
 				}
 				mu.Unlock()
+				if st.Fatal {
+					break // the worker has exited; the remaining scenarios go to the other workers
+				}
 			}
 			in.Close()
 			cmd.Wait()
